@@ -64,3 +64,40 @@ Proof.
   specialize (H Hin). destruct (common_of c), (common_input c); try discriminate.
   apply N.eqb_eq in H. now subst.
 Qed.
+
+(* ---------- node state bytes, masks and shifts (src/raw/node.rs) = the documented layout ---------- *)
+Lemma tie_state_bytes :
+  (src_state_otn, src_state_ot, src_state_any, src_any_final_flag) = (192, 128, 0, 64).
+Proof. reflexivity. Qed.
+Lemma tie_state_decode :
+  (src_state_kind_mask, src_state_kind_shift, src_state_kind_otn, src_state_kind_ot) = (192, 6, 3, 2).
+Proof. reflexivity. Qed.
+Lemma tie_ntrans_encoding :
+  (src_any_ntrans_max_inline, src_any_ntrans_mask, src_ntrans_256_marker, src_max_trans) = (63, 63, 1, 256).
+Proof. reflexivity. Qed.
+Lemma tie_common_masks :
+  (src_otn_common_max, src_ot_common_max, src_common_input_mask) = (63, 63, 63).
+Proof. reflexivity. Qed.
+Lemma tie_packsizes : (src_packsizes_tshift, src_packsizes_tmask, src_packsizes_omask) = (4, 240, 15).
+Proof. reflexivity. Qed.
+Lemma tie_index : (src_index_absent, src_index_len, src_version_index_min) = (255, 256, 2).
+Proof. reflexivity. Qed.
+Lemma tie_open_lengths :
+  (src_open_min_len, src_open_min_len_v3, src_checksum_version_max_without) = (32, 36, 2).
+Proof. reflexivity. Qed.
+(* bytes.rs pack_size: thresholds 2^8 .. 2^56 returning 1 .. 8, as in Pack.pack_size *)
+Lemma tie_pack_size : src_pack_size_shifts = [8; 16; 24; 32; 40; 48; 56] /\
+                      src_pack_size_results = [1; 2; 3; 4; 5; 6; 7; 8].
+Proof. split; reflexivity. Qed.
+Lemma pack_size_thresholds : forall n,
+  Pack.pack_size n = nth (length (filter (fun s => 2 ^ s <=? n) src_pack_size_shifts)) src_pack_size_results 0.
+Proof.
+  intros n. unfold Pack.pack_size. cbn [src_pack_size_shifts src_pack_size_results filter].
+  change (2 ^ 8) with 256. change (2 ^ 16) with 65536. change (2 ^ 24) with 16777216.
+  change (2 ^ 32) with 4294967296. change (2 ^ 40) with 1099511627776.
+  change (2 ^ 48) with 281474976710656. change (2 ^ 56) with 72057594037927936.
+  repeat match goal with
+         | |- context [?a <? ?b] => destruct (N.ltb_spec a b)
+         | |- context [?a <=? ?b] => destruct (N.leb_spec a b)
+         end; cbn [length nth]; try reflexivity; lia.
+Qed.
